@@ -49,8 +49,52 @@ CHANGE = {
     "C19-d": "DOT node loop `0..len()` instead of the arena iterator (nodes with index >= len() get no statement)",
 }
 
+# round 3: "subtle changes that need a rare but legitimate combination"
+CHANGE3 = {
+    "C01-e": "`is_edge_feasible` decides constant predicates `0.x <= b` statically with `b > 0` (drops the true branch for b == 0)",
+    "C01-f": "builder fast path: a one-node tree is assumed to be the identity (`update_node` instead of `apply_func`)",
+    "C02-e": "leaf flags of g collected by position from `node_iter()` and looked up by index (dense-arena assumption)",
+    "C02-f": "constant composed predicate ⇒ copy only the selected child of g (which may be missing)",
+    "C03-e": "`&a op b` forwards as `rhs.op(self)` (same slip as C07-a, stored for C03's operator clause)",
+    "C03-f": "zero-row shortcut in elimination tests `mat.sum() == 0` (rows whose coefficients cancel lose a branch)",
+    "C04-e": "`remove_all_descendants` pushes children right-to-left and stops at the first empty slot (orphans)",
+    "C04-f": "composition copies the operand's cached state into new nodes (witnesses of another input space)",
+    "C05-e": "`PolyhedraGen::skip_subtree` also pops a predicate (same slip as C06-c / C09-b, stored for C05's witness clause)",
+    "C05-f": "`mirror_points` returns all candidate columns as soon as any one is inside",
+    "C06-e": "depth-1 nodes: witness via `mirror_points` from the origin, else `Feasible` without LP (degenerate root predicate)",
+    "C06-f": "'skip subtrees fully checked by a previous run' flag computed in arena order (index reuse)",
+    "C09-f": "`PolyhedraGen::next` skips the subtree of nodes cached as Infeasible by itself",
+    "C09-g": "`DfsPre::next` n_remaining = K-1-label (same slip as C13-b, stored for C09's counter clause)",
+    "C11-e": "`phase_two` retries once after a solver Error and trusts the retry's point unchecked",
+    "C11-f": "`phase_inh` inherits witnesses from the closest ancestor that has any (skipped levels unchecked)",
+    "C12-e": "`remove_all_descendants` seeds its stack with `children.iter().map_while(..)` (stops at a gap)",
+    "C12-f": "`add_child_node` validates the parent only after its own insertion (self-linked node on index reuse)",
+    "C13-e": "`Tree::depth` computed in one pass over the arena in index order (parent index < child index assumed)",
+    "C13-f": "`skip_subtree` sets the lower size bound before truncating (DfsPre, DfsEdge, Bfs)",
+    "C07-e": "left-operand terminals enumerated as `(0..len()).filter(is_leaf)` (terminals behind arena holes skipped)",
+    "C07-f": "in-place fast path zips the raw buffers in memory order without comparing strides",
+    "C08-e": "`PartialEq` of AffFunc compares contiguous buffers in memory order (layout-blind)",
+    "C08-f": "`reduce` compares whole node contents incl. the cached feasibility state",
+    "C10-e": "`as_linprog` reads rows from `as_slice_memory_order()` chunks (wrong for column-major matrices)",
+    "C10-f": "variables that occur in no constraint are created with bounds (0, 0)",
+    "C14-e": "`apply_pre` drops rows whose composed normal is zero without looking at the constant",
+    "C14-f": "`apply_post` zero-offset fast path tests `bias.sum().is_zero()`",
+    "C15-e": "`remove_tautologies` decides by `is_sign_negative()` (bias -0.0 makes the set empty)",
+    "C15-f": "`normalize` filter_map drops zero rows before zipping with the biases (pairing shifts)",
+    "C16-e": "`subtraction(dim, i, i)`: plain assignment `-1` instead of read-modify-write",
+    "C16-f": "`slice` derives the keep-mask from the NaN-cleaned values (`is_zero`)",
+    "C17-e": "`remove_axes` loops `0..len()` over the arena (nodes behind holes keep their columns)",
+    "C17-f": "`from_poly` drops rows with a zero normal vector regardless of the bias",
+    "C18-e": "`read_layers` re-wraps the weight buffer with `into_raw_vec()` (Fortran-ordered members scrambled)",
+    "C18-f": "`Architecture::linear` installs the new shape before the compatibility check (rejected call corrupts the shape)",
+    "C19-e": "`write_lincomb` enumerates `as_slice_memory_order()` (reversed-stride rows print wrong indices)",
+    "C19-f": "`write_predicate` prints only row 0 of a multi-row predicate (K >= 4)",
+}
+CHANGE.update(CHANGE3)
+
 
 def main():
+    only3 = len(sys.argv) > 1 and sys.argv[1] == "round3"
     only2 = len(sys.argv) > 1 and sys.argv[1] == "round2"
     sdir = os.path.join(ROOT, "seeded")
     print("| id | change | needs to manifest | caught by (signatures) |")
@@ -59,7 +103,9 @@ def main():
         mp = os.path.join(sdir, sid, "meta.json")
         if not os.path.exists(mp):
             continue
-        if only2 and sid not in CHANGE:
+        if only2 and (sid not in CHANGE or sid in CHANGE3):
+            continue
+        if only3 and sid not in CHANGE3:
             continue
         m = json.load(open(mp))
         own = m["property"]
